@@ -7,9 +7,9 @@ SHRINK_FIELDS = ['ro_xml', 'msg_xml', 'doc']
 RULE = (
     "Cases: the exhaustive story/item scopes (blank, unknown, missing, repeated and self-referential "
     "IDs at every slot), the roElementAction shape enumeration of C08 (classification of well-formed "
-    "documents), Hypothesis single steps and histories with fault-heavy references over running "
+    "documents; a sample of them also as files and bytes in declared ISO-8859-1 / UTF-16 encodings), Hypothesis single steps and histories with fault-heavy references over running "
     "orders whose stories carry any subset of the timing metadata (including none, and metadata "
-    "without a payload), and non-strict collection merges.  Oracle: an exception leaving "
+    "without a payload), and non-strict collection merges (one in six over documents whose roID is blank throughout).  Oracle: an exception leaving "
     "MosFile.from_string on a well-formed document must be a MosRoMgrException; an exception "
     "leaving `ro += msg` must be a MosMergeError; MosCollection.merge(strict=False) must return.  "
     "Failures are bucketed by (exception type, innermost mosromgr frame).  Non-trivial = some "
@@ -20,6 +20,7 @@ ASSUMPTIONS = [
     'roStorySend has a storyBody, every story has a storyID and every item an itemID)',
 ]
 MANDATORY = ['ref-fault', 'untimed-story-present', 'degenerate', 'classification:ea-shape',
+             'classification:encoded-file', 'classification:encoded-bytes',
              'collection:non-strict']
 
 
@@ -54,10 +55,19 @@ def record(col, ev):
 
 
 def judge_doc(case):
-    """Classification of one well-formed document."""
+    """Classification of one well-formed document (from text, or from a file / bytes in the
+    encoding the document declares)."""
     from vlib.step import Failure, classify_exc
     from mosromgr.mostypes import MosFile
     import warnings
+    if case.get('source'):
+        from checks import c08
+        name, site = c08.classify(case['doc'], case['source'], 'ignore')
+        from mosromgr import exc as X, mostypes as MT
+        ok = hasattr(MT, name) or (hasattr(X, name) and issubclass(getattr(X, name), X.MosRoMgrException))
+        return [] if ok else [Failure(PROP, f'C12|classify-{case["source"].split(":")[0]}|{name}|{site}',
+                                      f'classification of a well-formed document ({case["source"]}) raised '
+                                      f'{name} at {site}', 'MosRoMgrException', name)]
     with warnings.catch_warnings():
         warnings.simplefilter('ignore')
         try:
@@ -110,6 +120,15 @@ def shard_ea_shapes(args):
     for label, doc, _exp in c08.enum_ea_shapes():
         case = {'doc': doc}
         col.record(case, True, ['classification:ea-shape'], judge_doc(case))
+    # the same documents as files / bytes in declared encodings (every 7th shape)
+    for n, (label, doc, _exp) in enumerate(c08.enum_ea_shapes()):
+        if n % 7:
+            continue
+        doc = doc.replace('</roID>', ' \u00e9</roID>', 1)
+        for source in ('file', 'file:latin1', 'file:utf16', 'file:utf16be', 'bytes:latin1', 'bytes:utf16',
+                       'bytes:utf8bom'):
+            case = {'doc': doc, 'source': source}
+            col.record(case, True, ['classification:encoded-' + source.split(':')[0]], judge_doc(case))
     col.scopes.append('classification: every roElementAction (operation, target shape, source shape) combination')
     return col
 
@@ -133,6 +152,16 @@ def shard_collections(args):
             _k, x = draw(gen.message(state, ro['ro_id'], kinds=[k for k in build.ALL_KINDS if k != 'roDelete'],
                                      faults='heavy', rich=True, mid=mid, degenerate=True))
             docs.append(x)
+        if draw(st.integers(0, 5)) == 0:
+            # one running order whose ID is blank everywhere
+            out = []
+            for d in docs:
+                r = ET.fromstring(d)
+                for rid in r.iter('roID'):
+                    rid.text = None
+                    break
+                out.append(ET.tostring(r, encoding='unicode'))
+            docs = out
         return {'docs': docs}
 
     def one(case):
@@ -150,7 +179,7 @@ def run(tier, seed, procs):
     refs = ['TGT', '', None, 'ZZ-unknown-story']
     cols += drive.pool_map(drive.shard_enum_item,
                            [(MOD, m, 'mixed', K, pos, refs) for m in range(0, M + 1) for pos in (0, 1)], procs)
-    kw = dict(kinds=list(build.ALL_KINDS), faults='heavy', rich=True, degenerate=True)
+    kw = dict(allow_no_slug=True, kinds=list(build.ALL_KINDS), faults='heavy', rich=True, degenerate=True)
     shards, per = (8, 500) if quick else (16, 20000)
     cols += drive.pool_map(drive.shard_hyp_steps,
                            [(MOD, per, seed * 1000 + i, kw) for i in range(shards)], procs)
